@@ -69,21 +69,23 @@ type simProc struct {
 }
 
 type sim struct {
-	c       *vs.Case
-	t       vs.Failer
-	w       *vs.MyWorld
-	zk      *vs.ZKServer
-	opts    simOpts
-	dir     string
-	procs   map[string]*simProc // current incarnation per host
-	all     []*simProc
-	ports   map[int]*simProc
-	mu      sync.Mutex
-	panics  []simPanic
-	nextInc map[string]int
-	startNo map[string]int
-	found   []finding
-	closed  bool
+	c           *vs.Case
+	t           vs.Failer
+	w           *vs.MyWorld
+	zk          *vs.ZKServer
+	opts        simOpts
+	dir         string
+	procs       map[string]*simProc // current incarnation per host
+	all         []*simProc
+	ports       map[int]*simProc
+	mu          sync.Mutex
+	panics      []simPanic
+	nextInc     map[string]int
+	startNo     map[string]int
+	found       []finding
+	closed      bool
+	traceFrom   int
+	ackerWindow bool
 }
 
 var (
@@ -183,31 +185,31 @@ func (s *sim) removeHostFile(host, name string) { _ = os.Remove(filepath.Join(s.
 func (s *sim) yaml(host string, port int, zkName string) string {
 	d := filepath.Join(s.dir, host)
 	base := map[string]string{
-		"loglevel":                   "Debug",
-		"hostname":                   host,
-		"lockfile":                   filepath.Join(d, "lock"),
-		"info_file":                  filepath.Join(d, "info"),
-		"emergefile":                 filepath.Join(d, "emerge"),
-		"resetupfile":                filepath.Join(d, "resetup"),
-		"maintenancefile":            filepath.Join(d, "maintenance"),
-		"db_timeout":                 "5s",
-		"db_lost_check_timeout":      "1s",
-		"tick_interval":              "2s",
-		"healthcheck_interval":       "5s",
-		"dcs_wait_timeout":           "10s",
-		"failover":                   "true",
-		"failover_cooldown":          "60m",
-		"failover_delay":             "0s",
-		"inactivation_delay":         "5s",
-		"semi_sync":                  "true",
-		"test_disk_usage_file":       filepath.Join(d, "usedspace"),
+		"loglevel":                      "Debug",
+		"hostname":                      host,
+		"lockfile":                      filepath.Join(d, "lock"),
+		"info_file":                     filepath.Join(d, "info"),
+		"emergefile":                    filepath.Join(d, "emerge"),
+		"resetupfile":                   filepath.Join(d, "resetup"),
+		"maintenancefile":               filepath.Join(d, "maintenance"),
+		"db_timeout":                    "5s",
+		"db_lost_check_timeout":         "1s",
+		"tick_interval":                 "2s",
+		"healthcheck_interval":          "5s",
+		"dcs_wait_timeout":              "10s",
+		"failover":                      "true",
+		"failover_cooldown":             "60m",
+		"failover_delay":                "0s",
+		"inactivation_delay":            "5s",
+		"semi_sync":                     "true",
+		"test_disk_usage_file":          filepath.Join(d, "usedspace"),
 		"test_filesystem_readonly_file": filepath.Join(d, "readonly"),
-		"critical_disk_usage":        "95",
-		"master_first_adjust_ss_order": "true",
-		"exclude_users":              "[repl, admin, monitor, event_scheduler]",
-		"replication_repair_cooldown": "10s",
-		"dsn_settings":               "\"?autocommit=1&sql_log_off=1&interpolateParams=true\"",
-		"manager_switchover":         "false",
+		"critical_disk_usage":           "95",
+		"master_first_adjust_ss_order":  "true",
+		"exclude_users":                 "[repl, admin, monitor, event_scheduler]",
+		"replication_repair_cooldown":   "10s",
+		"dsn_settings":                  "\"?autocommit=1&sql_log_off=1&interpolateParams=true\"",
+		"manager_switchover":            "false",
 	}
 	for k, v := range s.opts.Cfg {
 		base[k] = v
@@ -701,7 +703,8 @@ func (s *sim) raise() {
 	}
 	s.mu.Unlock()
 	if f != nil {
-		s.c.Violation(f.sig, "%s", f.msg)
+		s.dumpTrace(s.traceFrom)
+		s.c.Violation(f.sig, "%s\n%s", f.msg, s.describe())
 	}
 }
 
